@@ -8,7 +8,7 @@ from /repo's current working tree.  Exit 0: held on everything explored; 1: VIOL
 import json, os, sys, time, traceback
 sys.path.insert(0, os.path.dirname(os.path.abspath(__file__)))
 from vlib import *
-from vlib import run_apalache
+from vlib import run_apalache, HarnessCrash
 
 MCW = 8          # TLC workers for model checking (leave cores for cargo / other checks)
 
@@ -47,11 +47,15 @@ VQ_ASSUME = [
 
 def c01(tier, seed):
     c = Check("C01", tier, seed)
-    c.rule = "MC: complete reachable state space of the queue.rs transcription for N=2 (direct/indirect, event-idx on/off); traces: one scenario per (queue size, indirect, event_idx, access_platform) with random submissions/completions in any order; a scenario is non-trivial if it contains accepted submissions and completions"
+    c.rule = "MC: complete reachable state space of the queue.rs transcription for N=2 (direct/indirect, event-idx on/off); traces: one scenario per (queue size, indirect, event_idx, access_platform) with random submissions/completions in any order; a scenario is non-trivial if it contains accepted submissions and completions; every queue of every driver in the usage scenarios of the device families, configured by the negotiated features"
     c.assumptions = VQ_ASSUME
     mc(c, ["VQ_n2_direct", "VQ_n2_indirect"] + (["VQ_n2_direct_ev", "VQ_n2_indirect_ev"] if tier == "thorough" else []), tier,
        negative=["VQ_bug_no_last_fix"])
     vq_family(c, tier, seed, ["random"])
+    # "indirect tables ... used only when enabled for the queue": each driver's queues with the
+    # negotiated bits as the queue's configuration (every transport, none / one / both of
+    # INDIRECT_DESC and EVENT_IDX offered)
+    usage_queues(c, tier, seed)
     return c.finish()
 
 
@@ -80,8 +84,9 @@ def c04(tier, seed):
     c.assumptions = VQ_ASSUME
     mc(c, ["VQ_n2_indirect", "VQ_n2_direct_ev"], tier)
     vq_family(c, tier, seed + 303, ["random"])
-    # the ledger is the platform's: the drivers' own submissions and completions count as well
-    usage_queues(c, tier, seed)
+    # the ledger is the platform's: the drivers' own submissions and completions count as well,
+    # and so do the addresses drivers put *inside* requests (GPU backing memory): device level
+    usage_queues(c, tier, seed, device_level=True)
     return c.finish()
 
 
@@ -147,7 +152,11 @@ def c06(tier, seed):
     return c.finish()
 
 
-def usage_queues(c, tier, seed, net_frames=False):
+DEVICE_SPECS = {"blk": ("BlkTrace", 600), "console": ("ConsoleTrace", 600), "net": ("NetTrace", 600), "vsock": ("VsockTrace", 700),
+                "evq": ("EventQueueTrace", 600), "cmd": ("CmdTrace", 400)}
+
+
+def usage_queues(c, tier, seed, net_frames=False, device_level=False):
     """Every driver used (device families of C14-C20, standard-following device, all transports,
     feature sets offering none / one / both of INDIRECT_DESC and EVENT_IDX): each queue's trace is
     validated against VirtQueue.tla with the negotiated bits as its configuration."""
@@ -157,13 +166,13 @@ def usage_queues(c, tier, seed, net_frames=False):
         qv = validate_traces("VirtQueueTrace", "VirtQueueTrace.cfg", out + ".q.ndjson", {"scenarios": []})
         qv["scenarios"] = len(idx["scenarios"])
         c.add_validation(qv, "use-" + fam + "/queues")
-        if fam == "net" and net_frames:
-            # "the network header has its 12-byte modern form exactly when VERSION_1 was negotiated"
-            # - every pairing of transport generation and offered VERSION_1 bit, frames decoded by
-            # the reference device with the header length the negotiated features imply (Net.tla)
-            nv = validate_traces("NetTrace", "NetTrace.cfg", out, idx, max_events=600)
+        if device_level or (fam == "net" and net_frames):
+            # what the reference device decoded (requests, frames, packets, addresses inside
+            # command payloads, feature-gated requests) against the device's own specification
+            mod, me = DEVICE_SPECS[fam]
+            nv = validate_traces(mod, mod + ".cfg", out, idx, max_events=me)
             nv["scenarios"] = 0
-            c.add_validation(nv, "use-net/frames")
+            c.add_validation(nv, f"use-{fam}/device")
         if not c.violations:
             for f in (out, out + ".q.ndjson"):
                 if os.path.exists(f):
@@ -180,16 +189,18 @@ def c07(tier, seed):
                      "configuration values that make a driver allocate more memory than the machine has (sound: streams) are excluded: allocator abort is resource exhaustion"]
     mc(c, ["VQ_n2_adversary", "VQ_n2_adversary_ev"] + (["VQ_n2_adversary_ind"] if tier == "thorough" else []), tier, negative=["VQ_bug_no_token_check"])
     vq_family(c, tier, seed, ["adversary"])
+    # "whatever a device ... reports as ... configuration values": capability lengths and windows
+    # of every size on the real PCI and MMIO transports, accesses around their ends (the bounds
+    # grids of C13) - an access outside every advertised window is a BarStray / MmioStray event
+    pci_family(c, "ops", "PciTrace", "PciTrace.cfg", seed, tier, max_events=1500)
     profiles = ["dev", "release"] if tier == "thorough" else ["dev"]
     for prof in profiles:
         out = os.path.join(WORK, c.pid, f"adv-{prof}.ndjson")
         try:
             idx = run_harness("adv", out, seed, tier, profile=prof)
-        except ToolError as e:
-            if "exited with 3" in str(e) or "exited with 2" in str(e):
-                raise
+        except HarnessCrash as e:
             # the process died (abort / signal): not a result, not an error, not a clean panic
-            c.violation({"kind": "crash", "family": "adv", "profile": prof, "what": str(e), "replay_cmd": f"VH_SERIAL=1 harness/target/*/vh adv --seed {seed} --tier {tier}"})
+            c.violation({"kind": "crash", "family": "adv", "profile": prof, "what": str(e), "replay_cmd": "VH_SERIAL=1 " + " ".join(e.cmd)})
             continue
         v = validate_traces("AdvTrace", "AdvTrace.cfg", out, idx, max_events=1)
         c.add_validation(v, f"adv/{prof}")
@@ -221,7 +232,7 @@ def c08(tier, seed):
     # "thereafter": every driver is used (device families of C14-C20) under feature sets offering
     # none / exactly one / both of INDIRECT_DESC and EVENT_IDX; what the reference device sees in
     # each queue is validated with the *negotiated* bits as the queue's configuration
-    usage_queues(c, tier, seed, net_frames=True)
+    usage_queues(c, tier, seed, device_level=True)
     return c.finish()
 
 
@@ -238,6 +249,9 @@ def c09(tier, seed):
     idx = run_harness("adv", out, seed + 11, tier, ["plain"])
     v = validate_traces("AdvTrace", "AdvTrace.cfg", out, idx, max_events=2000)
     c.add_validation(v, "use")
+    # DMA regions a driver allocates while in use (GPU frame buffer / cursor): released only when
+    # no device resource is backed by them any more - detached, or the device reset (Cmd.tla)
+    device_family(c, "cmd", "CmdTrace", "CmdTrace.cfg", seed + 5, tier, max_events=400, queues=False)
     if not c.violations:
         for f in (out, out + ".q.ndjson"):
             if os.path.exists(f):
@@ -465,6 +479,15 @@ def main():
     seed = int(os.environ.get("VERIF_SEED", "1"))
     try:
         return PROPS[pid](tier, seed)
+    except HarnessCrash as e:
+        # the co-simulation process was killed by a signal while driving the crate (memory
+        # corruption): reported as a violation, with the command that reproduces it
+        rdir = os.path.join(WORK, "replays", pid)
+        os.makedirs(rdir, exist_ok=True)
+        path = os.path.join(rdir, f"{tier}-{seed}-crash.json")
+        json.dump({"property": pid, "kind": "crash", "what": str(e), "replay_cmd": "VH_SERIAL=1 " + " ".join(e.cmd)}, open(path, "w"), indent=1)
+        print(f"VIOLATION property={pid} replay={path}   (the harness process died: {e})")
+        return 1
     except ToolError as e:
         log(f"TOOL-ERROR {pid}: {e}")
         return 2
